@@ -380,8 +380,8 @@ func enumerate(fn *ssa.Function, opt LeafOptions, cx *callCtx, cut bool) ([]*Lea
 			}
 			return b
 		}
-		var process func(i int, guards []*Term, eff []Effect, bind map[ssa.Value]*Term, mem localMem)
-		process = func(i int, guards []*Term, eff []Effect, bind map[ssa.Value]*Term, mem localMem) {
+		var process func(i int, guards []*Term, eff []Effect, bind map[ssa.Value]*Term, mem localMem, cuts []Cut)
+		process = func(i int, guards []*Term, eff []Effect, bind map[ssa.Value]*Term, mem localMem, cuts []Cut) {
 			if err != nil {
 				return
 			}
@@ -439,7 +439,12 @@ func enumerate(fn *ssa.Function, opt LeafOptions, cx *callCtx, cut bool) ([]*Lea
 						if _, isLoop := cerr.(*loopError); isLoop && !opt.stack[callee] {
 							// a loop whose trip count is fixed by this call's arguments: enumerate the callee in context
 							opt.stack[callee] = true
+							// (with the loops of the function under analysis cut, a loop of the callee that does not unroll
+							// is cut in the same way: the callee's arrivals at its loop header end the caller's path too)
 							cl, cerr = enumerate(callee, opt, &callCtx{args: args, off: off}, false)
+							if cerr != nil && cut && len(cuts) == 0 {
+								cl, cerr = enumerate(callee, opt, &callCtx{args: args, off: off}, true)
+							}
 							delete(opt.stack, callee)
 							tr = func(t *Term) *Term { return t }
 						}
@@ -453,23 +458,35 @@ func enumerate(fn *ssa.Function, opt LeafOptions, cx *callCtx, cut bool) ([]*Lea
 						for _, L := range cl {
 							ng := guards
 							ok := true
-							for _, g := range L.Guards {
+							at := make([]int, len(L.Guards)+1) // at[k]: number of guards after the callee's first k
+							at[0] = len(ng)
+							for k, g := range L.Guards {
 								var keep bool
 								ng, keep = addGuard(ng, tr(g))
 								if !keep {
 									ok = false
 									break
 								}
+								at[k+1] = len(ng)
 							}
 							if !ok {
 								continue
+							}
+							pos := func(k int) int {
+								if k < 0 {
+									k = 0
+								}
+								if k >= len(at) {
+									k = len(at) - 1
+								}
+								return at[k]
 							}
 							ne := eff
 							if opt.Effects {
 								ne = append([]Effect{}, eff...)
 								for _, ef := range L.Effects {
 									ce := ef
-									ce.NG = len(ng)
+									ce.NG = pos(ef.NG)
 									if ce.Addr != nil {
 										ce.Addr = tr(ce.Addr)
 									}
@@ -481,6 +498,15 @@ func enumerate(fn *ssa.Function, opt LeafOptions, cx *callCtx, cut bool) ([]*Lea
 									}
 									ne = append(ne, ce)
 								}
+							}
+							ncuts := cuts
+							for _, c := range L.Cuts {
+								ncuts = append(append([]Cut{}, ncuts...), Cut{Header: c.Header, NG: pos(c.NG), NE: len(eff) + c.NE})
+							}
+							if L.End != nil {
+								// the callee arrives at its loop header: so does this path
+								out = append(out, &Leaf{Guards: append([]*Term{}, ng...), Effects: ne, Blocks: blocks, Cuts: ncuts, End: L.End, Pos: L.Pos})
+								continue
 							}
 							nb := make(map[ssa.Value]*Term, len(bind)+1)
 							for k, v := range bind {
@@ -495,7 +521,7 @@ func enumerate(fn *ssa.Function, opt LeafOptions, cx *callCtx, cut bool) ([]*Lea
 							} else {
 								nb[call] = &Term{Op: "tuple", Args: rets}
 							}
-							process(i+1, ng, ne, nb, mem)
+							process(i+1, ng, ne, nb, mem, ncuts)
 						}
 						return
 					}
@@ -524,13 +550,13 @@ func enumerate(fn *ssa.Function, opt LeafOptions, cx *callCtx, cut bool) ([]*Lea
 			last := blk.Instrs[len(blk.Instrs)-1]
 			switch t := last.(type) {
 			case *ssa.Return:
-				lf := &Leaf{Guards: append([]*Term{}, guards...), Pos: t.Pos(), Effects: eff, Blocks: blocks, Cuts: st.cuts}
+				lf := &Leaf{Guards: append([]*Term{}, guards...), Pos: t.Pos(), Effects: eff, Blocks: blocks, Cuts: cuts}
 				for _, r := range t.Results {
 					lf.Ret = append(lf.Ret, b.Term(r))
 				}
 				out = append(out, lf)
 			case *ssa.Jump:
-				walk(blk.Succs[0], blk, state{phi, guards, eff, blocks, bind, mem, st.cuts})
+				walk(blk.Succs[0], blk, state{phi, guards, eff, blocks, bind, mem, cuts})
 			case *ssa.If:
 				c := b.Term(t.Cond)
 				if debugInline && onPath[blk] > 1 {
@@ -545,7 +571,7 @@ func enumerate(fn *ssa.Function, opt LeafOptions, cx *callCtx, cut bool) ([]*Lea
 					if !keep {
 						continue
 					}
-					walk(succ, blk, state{phi, gs, eff, blocks, bind, mem, st.cuts})
+					walk(succ, blk, state{phi, gs, eff, blocks, bind, mem, cuts})
 				}
 			case *ssa.Panic:
 				err = fmt.Errorf("%s: explicit panic at block %d", fn.String(), blk.Index)
@@ -553,7 +579,7 @@ func enumerate(fn *ssa.Function, opt LeafOptions, cx *callCtx, cut bool) ([]*Lea
 				err = fmt.Errorf("%s: unexpected terminator %T", fn.String(), last)
 			}
 		}
-		process(0, st.guards, st.eff, st.bind, st.mem)
+		process(0, st.guards, st.eff, st.bind, st.mem, st.cuts)
 	}
 	bind0 := map[ssa.Value]*Term{}
 	if cx != nil {
